@@ -89,18 +89,61 @@ def arity_facts(f):
         if pl is None:
             continue
         for s in f.blocks[bi]['s']:
-            if s.get('d', {}).get('l') == pl['l'] and s['r'].get('rv') == 'bin' and s['r']['op'] in ('Eq', 'Ne'):
+            if s.get('d', {}).get('l') == pl['l'] and s['r'].get('rv') == 'bin' and s['r']['op'] in ('Eq', 'Ne', 'Lt', 'Ge', 'Gt', 'Le'):
                 a, b = s['r']['a'], s['r']['b']
                 pa = op_place(a)
                 k = const_usize(b)
                 if pa is not None and k is not None and (pa['l'] == 2 or any(q == (('arg', 2),) for q in org.get(pa['l'], ()))):
                     if s['r']['op'] == 'Eq':
                         out.append((t['else'], k))      # true edge of `==`
-                    else:
+                    elif s['r']['op'] == 'Ne':
                         for v, tb in t['cases']:
                             if v == 0:
                                 out.append((tb, k))     # false edge of `!=`
+                    elif s['r']['op'] == 'Lt':
+                        for v, tb in t['cases']:
+                            if v == 0:
+                                out.append((tb, k))     # false edge of `num_args < K`: at least K
+                    elif s['r']['op'] == 'Ge':
+                        out.append((t['else'], k))      # true edge of `num_args >= K`
+                    elif s['r']['op'] == 'Gt':
+                        out.append((t['else'], k + 1))  # true edge of `num_args > K`
+                    elif s['r']['op'] == 'Le':
+                        for v, tb in t['cases']:
+                            if v == 0:
+                                out.append((tb, k + 1))  # false edge of `num_args <= K`
     return out
+
+
+def arity_minus(g, pl, arity_local=2, is_arity=None):
+    """c if the local holds `num_args - c` (c a constant), else None; in a closure `is_arity(place)` recognises the captured parameter"""
+    cur = pl['l']
+    for _ in range(4):
+        defs = [s_ for b in g.blocks for s_ in b['s'] if s_.get('d', {}).get('l') == cur and not s_['d'].get('p')]
+        if len(defs) != 1:
+            return None
+        rr = defs[0]['r']
+        if rr.get('rv') == 'bin' and rr['op'] in ('Sub', 'SubWithOverflow'):
+            pa = op_place(rr['a'])
+            k = const_usize(rr['b'])
+            def arity_place(p_):
+                return (not p_.get('p') and p_['l'] == arity_local) or (is_arity is not None and is_arity(p_))
+            if pa is not None and k is not None and arity_place(pa):
+                return k
+            if pa is not None and k is not None and not pa.get('p'):
+                # the parameter was copied into a temporary first
+                d2 = [s_ for b in g.blocks for s_ in b['s'] if s_.get('d', {}).get('l') == pa['l'] and not s_['d'].get('p')]
+                if len(d2) == 1 and d2[0]['r'].get('rv') == 'use' and op_place(d2[0]['r']['o']) is not None and arity_place(op_place(d2[0]['r']['o'])):
+                    return k
+            return None
+        if rr.get('rv') == 'use':
+            p2 = op_place(rr['o'])
+            if p2 is None:
+                return None
+            cur = p2['l']
+            continue
+        return None
+    return None
 
 
 def continue_successor(f, sw_block):
@@ -158,7 +201,20 @@ def p1(rep, w):
                             if v['p']['l'] == 1 and ps and isinstance(ps[0], dict):
                                 cap[ps[0].get('n')] = v['n']
                         okv = pl is not None and any(q[0] == ('arg', 1) and len(q) >= 2 and cap.get(q[1]) == arity_name for q in gorg.get(pl['l'], ()))
-                    r.check(okv, site, 'stack slot read at a depth that is neither a constant nor the arity parameter', g.loc(t.get('sp')))
+                    if not okv and pl is not None:
+                        # `num_args - c`: a slot of the frame for every arity of at least c (established like a constant depth is)
+                        if g is f:
+                            c_ = arity_minus(g, pl)
+                            blk_ = bi
+                        else:
+                            def is_arity(p_):
+                                ps_ = [e for e in p_.get('p', []) if isinstance(e, dict)]
+                                return p_['l'] == 1 and bool(ps_) and cap.get(ps_[0].get('n')) == arity_name
+                            c_ = arity_minus(g, pl, None, is_arity)
+                            blk_ = at_block
+                        if c_ is not None and blk_ is not None:
+                            okv = c_ == 0 or any(eb is not None and k >= c_ and eb in dom.get(blk_, ()) for (eb, k) in facts)
+                    r.check(okv, site, 'stack slot read at a depth that is neither a constant nor the arity parameter (or the arity minus a constant it is known to reach)', g.loc(t.get('sp')))
                     continue
                 if d == 0:
                     r.ok(site + ' (receiver/top slot exists for every arity)', sample=False)
@@ -696,13 +752,15 @@ def p10(rep, w):
     r = rep.rule('P10', 'iterators over mutable collections compare their cursor with the current length before every element read', floor=1)
     n = 0
     for f in sorted(w.yarel.fns.values(), key=lambda x: x.path):
-        if not (f.path.endswith('Iter::next') and f.path.startswith('yarel::object::')):
+        st_ = f.crate.ty(f.raw['impl_self']).get('n', '') if f.raw.get('impl_self') is not None else ''
+        if not (f.raw.get('name') == 'next' and st_.startswith('yarel::object::') and st_.endswith('Iter')):
             continue
         # only collections a program can change while the iterator exists (held in a RefCell); a tuple's length is fixed
         if not any(strip_generics(callee_name(t) or '').endswith('RefCell::borrow') or strip_generics(callee_name(t) or '').endswith('RefCell::borrow_mut') for _, t in f.calls()):
             continue
         org = origins(f)
         dom = f.dominators()
+        reads = []        # (block, index local, span)
         for bi, t in sorted(f.calls()):
             nm = callee_name(t) or ''
             unchecked = nm.endswith('::get_unchecked') or nm.endswith('::get_unchecked_mut')
@@ -711,9 +769,18 @@ def p10(rep, w):
             tys = [f.crate.tstr(a) for a in (t['f'].get('ra') or t['f'].get('a') or [])]
             if 'usize' not in tys and not unchecked:
                 continue
-            n += 1
             ipl = op_place(t['args'][1])
-            idx = org.get(ipl['l'], set()) if ipl else set()
+            reads.append((bi, ipl['l'] if ipl else None, t.get('sp')))
+        for bi in sorted(f.normal_blocks()):
+            for s_ in f.blocks[bi]['s']:
+                rr = s_.get('r', {})
+                pl = op_place(rr.get('o', {}) or {}) if rr.get('rv') == 'use' else None
+                for e in (pl or {}).get('p', []):
+                    if isinstance(e, dict) and 'i' in e:
+                        reads.append((bi, e['i'], s_.get('sp')))       # built-in indexing of a slice
+        for (bi, il, sp_) in reads:
+            n += 1
+            idx = org.get(il, set()) if il is not None else set()
             guarded = False
             for b in f.normal_blocks():
                 tt = f.blocks[b]['t']
@@ -727,7 +794,15 @@ def p10(rep, w):
                         same = any(sd & idx for sd in sides) if idx else False
                         if has_len and same:
                             guarded = True
+                    if rr.get('rv') == 'bin' and rr['op'] in ('Eq', 'Ne') and (op_const(rr['b']) or {}).get('v') == 0:
+                        # `len.saturating_sub(cursor) == 0`: nothing left at or beyond the cursor
+                        for q in org.get((op_place(rr['a']) or {}).get('l'), ()):
+                            if q[0][0] == 'call' and strip_generics(q[0][2]).endswith('::saturating_sub'):
+                                ct = f.blocks[q[0][1]]['t']
+                                sides = [org.get((op_place(o) or {}).get('l'), set()) for o in ct['args']]
+                                if len(sides) == 2 and any(q2[0][0] == 'call' and strip_generics(q2[0][2]).endswith('::len') for q2 in sides[0]) and (sides[1] & idx):
+                                    guarded = True
             r.check(guarded, '%s / element read' % f.path.replace('yarel::object::', ''), 'the iterator reads element [cursor] without having compared the cursor with the '
-                    'collection\'s current len() in this call: after the loop body shrinks the collection the interpreter panics (index out of bounds) instead of ending the loop', f.loc(t.get('sp')))
+                    'collection\'s current len() in this call: after the loop body shrinks the collection the interpreter panics (index out of bounds) instead of ending the loop', f.loc(sp_))
     if n < 1:
         raise Broken('C02', 'floor', 'P10: %d indexed reads in iterator next() functions' % n)
